@@ -16,7 +16,8 @@ branches included:
   `deleteAttributeExpireLookup` :582, `ValidateExpirationDate` :590.
 * `x/attribute/keeper/msg_server.go`: AddAttribute, UpdateAttribute,
   UpdateAttributeExpiration, DeleteAttribute, DeleteDistinctAttribute.
-* `x/attribute/abci.go`: `BeginBlocker` = `DeleteExpiredAttributes(ctx, 100000)`.
+* `x/attribute/abci.go`: `BeginBlocker` = `DeleteExpiredAttributes(ctx, 100000)` (the sweep as
+  repaired by commit f2249cacd; the earlier sweep is kept as `stepPreFix` for the witnesses).
 * `x/name/keeper/msg_server.go`: BindName :32 (under an unrestricted parent), DeleteName :99
   (`DeleteRecord` then `attrKeeper.PurgeAttribute`), ModifyName :162 (does not touch
   attributes); `x/name/keeper/keeper.go`: `ResolvesTo` :81, `NameExists` :173.
@@ -246,11 +247,15 @@ def purgeAttribute (s : State) (name owner : String) : Except Err State :=
   else if !resolvesTo s name owner && nameExists s name then .error .perm
   else .ok ((accountsByAttribute s name).foldl (purgeAcct name) s)
 
-/-- Loop body of `DeleteExpiredAttributes` (:543-569): the attribute stored under the key of
-the queue entry is deleted whatever its own expiration date is; the queue entry goes. -/
+/-- Loop body of `DeleteExpiredAttributes` (keeper.go:543-573, after commit f2249cacd): the
+attribute stored under the key of the queue entry is deleted only when the entry is the one of
+its currently stored expiration date
+(`bytes.Equal(types.AttributeExpireKey(attribute), expirationKey)`); a stale entry (left by
+`SetAttribute` over an identical key, `UpdateAttribute` onto a stored value, `PurgeAttribute`)
+is just dropped.  The queue entry always goes. -/
 def expireOne (s : State) (q : Nat × Key) : State :=
   let s1 := match getAttr s q.2 with
-    | some a => decAttrNameAddressLookup (delRec s q.2) a.name a.addr
+    | some a => if a.exp = some q.1 then decAttrNameAddressLookup (delRec s q.2) a.name a.addr else s
     | none => s
   { s1 with queue := s1.queue.filter (fun q' => decide (q' ≠ q)) }
 
@@ -330,31 +335,30 @@ def apply (s : State) (op : Op) : State :=
 
 def run (s : State) (ops : List Op) : State := ops.foldl apply s
 
-/-! ### proposed repair of the sweep (NOT applied to the Go code; `proposed_fixes/C16-…patch`)
+/-! ### the sweep before commit f2249cacd (historical; only for the `…_before_fix` witnesses)
 
-`DeleteExpiredAttributes` deletes the stored attribute only when the queue entry is the one
-of its current expiration date (`bytes.Equal(AttributeExpireKey(attribute), expirationKey)`);
-a stale entry is just dropped.  `PvProofs.C16.fixed_*` prove that this alone restores the
-clause for all histories. -/
+Until f2249cacd ("fix: expired-attribute sweep deleted attributes through stale
+expiration-queue entries") the loop body deleted whatever attribute was stored under the key of
+the queue entry, whatever its own expiration date was. -/
 
-def expireOneFixed (s : State) (q : Nat × Key) : State :=
+def expireOnePreFix (s : State) (q : Nat × Key) : State :=
   let s1 := match getAttr s q.2 with
-    | some a => if a.exp = some q.1 then decAttrNameAddressLookup (delRec s q.2) a.name a.addr else s
+    | some a => decAttrNameAddressLookup (delRec s q.2) a.name a.addr
     | none => s
   { s1 with queue := s1.queue.filter (fun q' => decide (q' ≠ q)) }
 
-def deleteExpiredAttributesFixed (s : State) : State :=
-  (s.queue.filter (fun q => decide (q.1 < s.now))).foldl expireOneFixed s
+def deleteExpiredAttributesPreFix (s : State) : State :=
+  (s.queue.filter (fun q => decide (q.1 < s.now))).foldl expireOnePreFix s
 
-def stepFixed (s : State) : Op → Except Err State
-  | .beginBlock t => .ok (deleteExpiredAttributesFixed { s with now := t })
+def stepPreFix (s : State) : Op → Except Err State
+  | .beginBlock t => .ok (deleteExpiredAttributesPreFix { s with now := t })
   | op => step s op
 
-def applyFixed (s : State) (op : Op) : State :=
-  match stepFixed s op with
+def applyPreFix (s : State) (op : Op) : State :=
+  match stepPreFix s op with
   | .ok s' => s'
   | .error _ => s
 
-def runFixed (s : State) (ops : List Op) : State := ops.foldl applyFixed s
+def runPreFix (s : State) (ops : List Op) : State := ops.foldl applyPreFix s
 
 end PvModel.Attr
